@@ -69,12 +69,50 @@ Section AstSemEq.
       | RNormal m2 | RContinue m2 =>
           match exec_ostmt n post m2 with
           | RNormal m3 => exec_loop P FN n c post body m3
+          | RBreak _ | RContinue _ => RWrong
           | other => other
           end
       | RBreak m2 => RNormal m2
       | other => other
       end).
   Proof. destruct c, post; reflexivity. Qed.
+
+  Lemma eval_assign n lv r m :
+    eval P FN (S n) (EAssign lv r) m =
+    ebind (eval P FN n r m) (fun v m1 => ebind (eval_lref P FN n lv m1) (fun ref m2 => lref_write P v m2 ref v)).
+  Proof. reflexivity. Qed.
+  Lemma eval_augassign n lv op r m :
+    eval P FN (S n) (EAugAssign lv op r) m =
+    ebind (eval P FN n r m) (fun rv m1 =>
+    ebind (eval_lref P FN n lv m1) (fun ref m2 =>
+    ebind (lref_read P m2 ref) (fun old m3 =>
+    ebind (of_pure_er m3 (p_arith P op old rv)) (fun nv m4 => lref_write P nv m4 ref nv)))).
+  Proof. reflexivity. Qed.
+  Lemma eval_incr n lv decr pre m :
+    eval P FN (S n) (EIncr lv decr pre) m =
+    ebind (eval_lref P FN n lv m) (fun ref m1 =>
+    ebind (lref_read P m1 ref) (fun old m2 =>
+      if pre then
+        ebind (of_pure_er m2 (p_arith P (incr_arith decr) old (p_num P one_bits))) (fun nv m3 => lref_write P nv m3 ref nv)
+      else
+        ebind (of_pure_er m2 (p_arith P (incr_arith decr) (p_plus P old) (p_num P one_bits)))
+              (fun nv m3 => lref_write P (p_plus P old) m3 ref nv))).
+  Proof. reflexivity. Qed.
+
+  Lemma exec_loop_no_brk n : forall c post body m,
+    match exec_loop P FN n c post body m with
+    | RBreak _ | RContinue _ => False
+    | _ => True
+    end.
+  Proof.
+    induction n as [|n IH]; intros c post body m; [exact I|].
+    rewrite exec_loop_S.
+    destruct (test_cond n c m) as [go m1|x m1| |]; cbn [sbind]; try exact I.
+    destruct (negb go); [exact I|].
+    destruct (exec_stmts P FN n true body m1) as [m2|m2|m2|v m2|x m2| |]; try exact I.
+    - destruct (exec_ostmt n post m2); try exact I. apply IH.
+    - destruct (exec_ostmt n post m2); try exact I. apply IH.
+  Qed.
 
   (* statements *)
   Lemma exec_expr n l e m : exec P FN (S n) l (SExpr e) m = sbind (eval P FN n e m) (fun _ m1 => RNormal m1).
@@ -94,6 +132,7 @@ Section AstSemEq.
     exec P FN (S n) l (SFor pre c post body) m =
     match exec_ostmt n pre m with
     | RNormal m1 => exec_loop P FN n c post body m1
+    | RBreak _ | RContinue _ => RWrong
     | other => other
     end.
   Proof. destruct pre; reflexivity. Qed.
@@ -126,6 +165,17 @@ Section AstSemEq.
             end
         end
     end.
+
+  Lemma forin_ast_no_brk n vsc vi body ks : forall m,
+    match forin_ast n vsc vi body ks m with
+    | RBreak _ | RContinue _ => False
+    | _ => True
+    end.
+  Proof.
+    induction ks as [|k ks IH]; intros m; cbn [forin_ast]; [exact I|].
+    destruct (var_write P m vsc vi k) as [m1|e m1|]; try exact I.
+    destruct (exec_stmts P FN n true body m1); try exact I; apply IH.
+  Qed.
 
   Lemma exec_forin n l vsc vi asc ai body m :
     exec P FN (S n) l (SForIn vsc vi asc ai body) m =
